@@ -6,10 +6,28 @@ Open Scope N_scope.
 Lemma gstate_eq (a b : gstate) :
   g_insts a = g_insts b -> g_hooks a = g_hooks b -> g_htcache a = g_htcache b ->
   g_htlock a = g_htlock b -> g_rollers a = g_rollers b -> g_socks a = g_socks b ->
-  g_next a = g_next b -> a = b.
+  g_next a = g_next b -> g_probers a = g_probers b -> a = b.
 Proof.
-  destruct a, b; simpl; intros H1 H2 H3 H4 H5 H6 H7.
-  rewrite H1, H2, H3, H4, H5, H6, H7. reflexivity.
+  destruct a, b; simpl; intros H1 H2 H3 H4 H5 H6 H7 H8.
+  rewrite H1, H2, H3, H4, H5, H6, H7, H8. reflexivity.
+Qed.
+
+(* the SIGUSR1 handler as a function: asking the loader first and leaving at once when it fails is the same
+   as going through purge / failing Restart / restore (a Casketfile that cannot be loaded does not parse) *)
+Lemma do_sigusr1_unfold step e c g :
+  do_sigusr1 step e c g =
+  match g_insts g with
+  | [] => (RErr, g)
+  | _ => let saved := g_hooks g in
+         let '(r, g') := do_reload step e c (set_hooks g []) in
+         match r with ROk => (ROk, g') | x => (x, set_hooks g' saved) end
+  end.
+Proof.
+  unfold do_sigusr1, do_sigusr1_gen. destruct (g_insts g) as [|old rest] eqn:GI; [reflexivity|].
+  unfold loader_fails. destruct (c_parse c) eqn:P; try reflexivity.
+  unfold do_reload. cbn [set_hooks g_insts]. rewrite GI.
+  unfold start_with, start_body, parse_ok. rewrite P. cbn.
+  destruct g; reflexivity.
 Qed.
 
 (* g' differs from g at most in the registries that directive set-up writes to *)
@@ -19,20 +37,21 @@ Record ext (step : N) (g g' : gstate) : Prop := {
   x_next : g_next g' = g_next g;
   x_rollers : g_rollers g' = g_rollers g;
   x_lock : g_htlock g' = g_htlock g;
-  x_hooks : exists k, g_hooks g' = g_hooks g ++ repeat step k
+  x_hooks : exists k, g_hooks g' = g_hooks g ++ repeat step k;
+  x_probers : exists k, g_probers g' = g_probers g ++ repeat step k
 }.
 
 Lemma ext_refl step g : ext step g g.
 Proof.
-  constructor; try reflexivity.
-  exists O. simpl. symmetry. apply app_nil_r.
+  constructor; try reflexivity; exists O; simpl; symmetry; apply app_nil_r.
 Qed.
 
 Lemma ext_trans step a b c : ext step a b -> ext step b c -> ext step a c.
 Proof.
-  intros [A1 A2 A3 A4 A5 [ka A6]] [B1 B2 B3 B4 B5 [kb B6]].
+  intros [A1 A2 A3 A4 A5 [ka A6] [pa A7]] [B1 B2 B3 B4 B5 [kb B6] [pb B7]].
   constructor; try congruence.
-  exists (ka + kb)%nat. rewrite B6, A6, <- app_assoc, repeat_app. reflexivity.
+  - exists (ka + kb)%nat. rewrite B6, A6, <- app_assoc, repeat_app. reflexivity.
+  - exists (pa + pb)%nat. rewrite B7, A7, <- app_assoc, repeat_app. reflexivity.
 Qed.
 
 (* ------------------------------------------------------------------ GetHtpasswdMatcher *)
@@ -58,7 +77,8 @@ Record cext (g g' : gstate) : Prop := {
   c_socks : g_socks g' = g_socks g;
   c_next : g_next g' = g_next g;
   c_rollers : g_rollers g' = g_rollers g;
-  c_lock : g_htlock g' = g_htlock g
+  c_lock : g_htlock g' = g_htlock g;
+  c_probers : g_probers g' = g_probers g
 }.
 
 Lemma cext_refl g : cext g g.
@@ -66,8 +86,9 @@ Proof. constructor; reflexivity. Qed.
 
 Lemma cext_ext step g g' : cext g g' -> ext step g g'.
 Proof.
-  intros [A1 A2 A3 A4 A5 A6]. constructor; auto.
-  exists O. rewrite A2. simpl. symmetry. apply app_nil_r.
+  intros [A1 A2 A3 A4 A5 A6 A7]. constructor; auto.
+  - exists O. rewrite A2. simpl. symmetry. apply app_nil_r.
+  - exists O. rewrite A7. simpl. symmetry. apply app_nil_r.
 Qed.
 
 (* the cache is transparent: with a cache that holds parsed files only, the answer of the matcher is the
@@ -178,10 +199,12 @@ Lemma exec_effs_ext step e effs : forall g l r g' l',
 Proof.
   induction effs as [|x effs IH]; intros g l r g' l' H; simpl in H.
   - injection H as <- <- <-. apply ext_refl.
-  - destruct x as [|n|f size ok|f u].
+  - destruct x as [|n|f size ok|f u|].
     + injection H as <- <- <-. apply ext_refl.
     + apply IH in H. eapply ext_trans; [|exact H].
-      constructor; simpl; try reflexivity; auto. exists n. reflexivity.
+      constructor; simpl; try reflexivity; auto.
+      * exists n. reflexivity.
+      * exists O. simpl. symmetry. apply app_nil_r.
     + apply IH in H. exact H.
     + destruct (get_matcher e g f u) as [[r1 g1] o1] eqn:M.
       pose proof (get_matcher_ext step _ _ _ _ _ _ _ M) as X.
@@ -191,6 +214,10 @@ Proof.
         -- injection H as <- <- <-. exact X.
       * injection H as <- <- <-. exact X.
       * injection H as <- <- <-. exact X.
+    + apply IH in H. eapply ext_trans; [|exact H].
+      constructor; simpl; try reflexivity; auto.
+      * exists O. simpl. symmetry. apply app_nil_r.
+      * exists 1%nat. reflexivity.
 Qed.
 
 Lemma exec_effs_no_hang step e effs : forall g l r g' l',
@@ -198,7 +225,7 @@ Lemma exec_effs_no_hang step e effs : forall g l r g' l',
 Proof.
   induction effs as [|x effs IH]; intros g l r g' l' L H; simpl in H.
   - injection H as <- <- <-. discriminate.
-  - destruct x as [|n|f size ok|f u].
+  - destruct x as [|n|f size ok|f u|].
     + injection H as <- <- <-. discriminate.
     + eapply IH; [|exact H]. exact L.
     + eapply IH; [|exact H]. exact L.
@@ -211,6 +238,7 @@ Proof.
         -- injection H as <- <- <-. discriminate.
       * injection H as <- <- <-. discriminate.
       * congruence.
+    + eapply IH; [|exact H]. exact L.
 Qed.
 
 (* the cache holds parsed files only, whatever is executed *)
@@ -227,7 +255,7 @@ Lemma exec_effs_cache_ok step e effs : forall g l r g' l',
 Proof.
   induction effs as [|x effs IH]; intros g l r g' l' C H; simpl in H.
   - injection H as <- <- <-. exact C.
-  - destruct x as [|n|f size ok|f u].
+  - destruct x as [|n|f size ok|f u|].
     + injection H as <- <- <-. exact C.
     + eapply IH; [|exact H]; assumption.
     + eapply IH; [|exact H]; assumption.
@@ -239,6 +267,7 @@ Proof.
         -- injection H as <- <- <-. exact C1.
       * injection H as <- <- <-. exact C1.
       * injection H as <- <- <-. exact C1.
+    + eapply IH; [|exact H]; assumption.
 Qed.
 
 Lemma exec_effs_no_log_startups step e effs : forall g l r g' l',
@@ -247,7 +276,7 @@ Proof.
   induction effs as [|x effs IH]; intros g l r g' l' N H; simpl in H.
   - injection H as <- <- <-. reflexivity.
   - simpl in N. apply andb_true_iff in N as [N1 N2].
-    destruct x as [|n|f size ok|f u]; try discriminate.
+    destruct x as [|n|f size ok|f u|]; try discriminate.
     + injection H as <- <- <-. reflexivity.
     + apply IH in H; [|exact N2]. exact H.
     + destruct (get_matcher e g f u) as [[r1 g1] o1].
@@ -257,12 +286,13 @@ Proof.
         -- injection H as <- <- <-. reflexivity.
       * injection H as <- <- <-. reflexivity.
       * injection H as <- <- <-. reflexivity.
+    + apply IH in H; [|exact N2]. exact H.
 Qed.
 
 (* ------------------------------------------------------------------ ValidateAndExecuteDirectives *)
 Lemma ext_set_hooks_back step g g1 : ext step g g1 -> ext step g (set_hooks g1 (g_hooks g)).
 Proof.
-  intros [A1 A2 A3 A4 A5 A6]. constructor; simpl; auto.
+  intros [A1 A2 A3 A4 A5 A6 A7]. constructor; simpl; auto.
   exists O. simpl. symmetry. apply app_nil_r.
 Qed.
 
@@ -294,6 +324,7 @@ Record rext (g g' : gstate) : Prop := {
   r_lock : g_htlock g' = g_htlock g;
   r_socks : g_socks g' = g_socks g;
   r_next : g_next g' = g_next g;
+  r_probers : g_probers g' = g_probers g;
   r_rollers : forall f x, assoc f (g_rollers g) = Some x -> assoc f (g_rollers g') = Some x
 }.
 
@@ -340,7 +371,8 @@ Record sext (g g' : gstate) : Prop := {
   s_hooks : g_hooks g' = g_hooks g;
   s_cache : g_htcache g' = g_htcache g;
   s_lock : g_htlock g' = g_htlock g;
-  s_rollers : g_rollers g' = g_rollers g
+  s_rollers : g_rollers g' = g_rollers g;
+  s_probers : g_probers g' = g_probers g
 }.
 
 Lemma sext_refl g : sext g g.
@@ -348,7 +380,7 @@ Proof. constructor; auto. Qed.
 
 Lemma sext_trans a b c : sext a b -> sext b c -> sext a c.
 Proof.
-  intros [A1 A2 A3 A4 A5] [B1 B2 B3 B4 B5]. constructor; congruence.
+  intros [A1 A2 A3 A4 A5 A6] [B1 B2 B3 B4 B5 B6]. constructor; congruence.
 Qed.
 
 Lemma dup_fd_le g sid : socks_le (g_socks g) (g_socks (dup_fd g sid)).
@@ -491,42 +523,45 @@ Record grow (step : N) (g g' : gstate) : Prop := {
   w_insts : g_insts g' = g_insts g;
   w_lock : g_htlock g' = g_htlock g;
   w_hooks : exists k, g_hooks g' = g_hooks g ++ repeat step k;
-  w_rollers : forall f x, assoc f (g_rollers g) = Some x -> assoc f (g_rollers g') = Some x
+  w_rollers : forall f x, assoc f (g_rollers g) = Some x -> assoc f (g_rollers g') = Some x;
+  w_probers : exists k, g_probers g' = g_probers g ++ repeat step k
 }.
 
 Lemma grow_refl step g : grow step g g.
 Proof.
-  constructor; auto.
-  exists O. simpl. symmetry. apply app_nil_r.
+  constructor; auto; exists O; simpl; symmetry; apply app_nil_r.
 Qed.
 
 Lemma grow_trans step a b c : grow step a b -> grow step b c -> grow step a c.
 Proof.
-  intros [A1 A2 [ka A3] A5] [B1 B2 [kb B3] B5]. constructor; try congruence; auto.
-  exists (ka + kb)%nat. rewrite B3, A3, <- app_assoc, repeat_app. reflexivity.
+  intros [A1 A2 [ka A3] A5 [pa A6]] [B1 B2 [kb B3] B5 [pb B6]]. constructor; try congruence; auto.
+  - exists (ka + kb)%nat. rewrite B3, A3, <- app_assoc, repeat_app. reflexivity.
+  - exists (pa + pb)%nat. rewrite B6, A6, <- app_assoc, repeat_app. reflexivity.
 Qed.
 
 Lemma ext_grow step g g' : ext step g g' -> grow step g g'.
 Proof.
-  intros [A1 A2 A3 A4 A5 A6]. constructor; auto.
+  intros [A1 A2 A3 A4 A5 A6 A7]. constructor; auto.
   intros f x. rewrite A4. auto.
 Qed.
 
 Lemma rext_grow step g g' : rext g g' -> grow step g g'.
 Proof.
-  intros [A1 A2 A3 A4 A5 A6 A7]. constructor; auto.
-  exists O. rewrite A2. simpl. symmetry. apply app_nil_r.
+  intros [A1 A2 A3 A4 A5 A6 A8 A7]. constructor; auto.
+  - exists O. rewrite A2. simpl. symmetry. apply app_nil_r.
+  - exists O. rewrite A8. simpl. symmetry. apply app_nil_r.
 Qed.
 
 Lemma sext_grow step g g' : sext g g' -> grow step g g'.
 Proof.
-  intros [A1 A2 A3 A4 A5]. constructor; auto.
+  intros [A1 A2 A3 A4 A5 A6]. constructor; auto.
   - exists O. rewrite A2. simpl. symmetry. apply app_nil_r.
   - intros f x. rewrite A5. auto.
+  - exists O. rewrite A6. simpl. symmetry. apply app_nil_r.
 Qed.
 
 Lemma grow_set_socks step g g' x n : grow step g g' -> grow step g (set_socks g' x n).
-Proof. intros [A1 A2 A3 A5]. constructor; auto. Qed.
+Proof. intros [A1 A2 A3 A5 A6]. constructor; auto. Qed.
 
 Lemma start_body_grow step e c old g r g' oi :
   start_body step e c old g = (r, g', oi) -> grow step g g'.
@@ -680,7 +715,7 @@ Proof.
     destruct r1; [destruct oi|..]; injection H as <- <-; simpl; exact L.
   - exact (x_lock _ _ _ (proj1 (do_validate_ext _ _ _ _ _ _ H))).
   - eapply RL; eauto.
-  - unfold do_sigusr1 in H. destruct (g_insts g) as [|old rest] eqn:GI; [injection H as <- <-; reflexivity|].
+  - rewrite do_sigusr1_unfold in H. destruct (g_insts g) as [|old rest] eqn:GI; [injection H as <- <-; reflexivity|].
     destruct (do_reload step e c (set_hooks g [])) as [r1 g1] eqn:R.
     apply RL in R. simpl in R.
     destruct r1; injection H as <- <-; simpl; exact R.
@@ -702,7 +737,7 @@ Proof.
     destruct r1; [destruct oi|..]; injection H as <- <-; congruence.
   - destruct (do_validate_ext _ _ _ _ _ _ H) as (_ & _ & NH & _). auto.
   - eapply RL; eauto.
-  - unfold do_sigusr1 in H. destruct (g_insts g) as [|old rest] eqn:GI; [injection H as <- <-; discriminate|].
+  - rewrite do_sigusr1_unfold in H. destruct (g_insts g) as [|old rest] eqn:GI; [injection H as <- <-; discriminate|].
     destruct (do_reload step e c (set_hooks g [])) as [r1 g1] eqn:R.
     apply RL in R; [|exact L].
     destruct r1; injection H as <- <-; congruence.
@@ -728,7 +763,7 @@ Proof.
     destruct r1; [destruct oi|..]; injection H as <- <-; try exact G. congruence.
   - apply ext_grow. exact (proj1 (do_validate_ext _ _ _ _ _ _ H)).
   - eapply failed_reload_grow; eauto.
-  - unfold do_sigusr1 in H. destruct (g_insts g) as [|old rest] eqn:GI; [injection H as <- <-; apply grow_refl|].
+  - rewrite do_sigusr1_unfold in H. destruct (g_insts g) as [|old rest] eqn:GI; [injection H as <- <-; apply grow_refl|].
     destruct (do_reload step e c (set_hooks g [])) as [r1 g1] eqn:R.
     destruct r1; injection H as <- <-; try congruence.
     + apply failed_reload_grow in R; [|discriminate]. destruct R as [R1 R2 R3 R5].
@@ -743,7 +778,7 @@ Qed.
 Lemma failed_sigusr1_hooks step e c g r g' :
   do_sigusr1 step e c g = (r, g') -> r <> ROk -> g_hooks g' = g_hooks g.
 Proof.
-  unfold do_sigusr1. intros H NR. destruct (g_insts g) as [|old rest]; [injection H as <- <-; reflexivity|].
+  rewrite do_sigusr1_unfold. intros H NR. destruct (g_insts g) as [|old rest]; [injection H as <- <-; reflexivity|].
   destruct (do_reload step e c (set_hooks g [])) as [r1 g1].
   destruct r1; injection H as <- <-; try congruence; reflexivity.
 Qed.
@@ -885,7 +920,7 @@ Proof.
     + subst i. eapply start_with_inst_wf; [|exact S]. intros a sid [].
   - eapply VL; eauto.
   - eapply reload_wf; eauto.
-  - unfold do_sigusr1 in H. destruct (g_insts g) as [|old rest] eqn:GI; [injection H as <- <-; exact W|].
+  - rewrite do_sigusr1_unfold in H. destruct (g_insts g) as [|old rest] eqn:GI; [injection H as <- <-; exact W|].
     destruct (do_reload step e c (set_hooks g [])) as [r1 g1] eqn:R.
     apply reload_wf in R; [|exact W].
     destruct r1; injection H as <- <-; exact R.
@@ -915,7 +950,7 @@ Proof.
       injection H as <- <-; apply KO; discriminate.
   - eapply VL; eauto.
   - eapply RL; eauto.
-  - unfold do_sigusr1 in H. destruct (g_insts g) as [|old rest] eqn:GI; [injection H as <- <-; split; reflexivity|].
+  - rewrite do_sigusr1_unfold in H. destruct (g_insts g) as [|old rest] eqn:GI; [injection H as <- <-; split; reflexivity|].
     destruct (do_reload step e c (set_hooks g [])) as [r1 g1] eqn:R.
     assert (r1 <> ROk) as NR1 by (destruct r1; injection H as <- <-; congruence).
     assert (T' : socks_ok (set_hooks g [])) by exact T.
@@ -945,11 +980,63 @@ Proof.
   destruct r0; injection H as <- <- <-; exact RB.
 Qed.
 
+(* ... and no health-check worker is started where no proxy directive is set up *)
+Lemma exec_effs_no_proxy_probers step e effs : forall g l r g' l',
+  no_proxy effs = true -> exec_effs step e effs g l = (r, g', l') -> g_probers g' = g_probers g.
+Proof.
+  induction effs as [|x effs IH]; intros g l r g' l' N H; simpl in H.
+  - injection H as <- <- <-. reflexivity.
+  - simpl in N. apply andb_true_iff in N as [N1 N2].
+    destruct x as [|n|f size ok|f u|]; try discriminate.
+    + injection H as <- <- <-. reflexivity.
+    + apply IH in H; [|exact N2]. exact H.
+    + apply IH in H; [|exact N2]. exact H.
+    + destruct (get_matcher e g f u) as [[r1 g1] o1] eqn:M.
+      pose proof (c_probers _ _ (get_matcher_cext _ _ _ _ _ _ _ M)) as P1.
+      destruct r1.
+      * destruct o1 as [pw|].
+        -- apply IH in H; [|exact N2]. congruence.
+        -- injection H as <- <- <-. exact P1.
+      * injection H as <- <- <-. exact P1.
+      * injection H as <- <- <-. exact P1.
+Qed.
+
+Lemma start_with_no_proxy_probers step e c old g r g' oi :
+  no_proxy (c_effs c) = true -> start_with step e c old g = (r, g', oi) -> g_probers g' = g_probers g.
+Proof.
+  unfold start_with. intros NP H.
+  destruct (start_body step e c old g) as [[r0 gb] oi0] eqn:B.
+  assert (RB : g_probers gb = g_probers g).
+  { revert B. unfold start_body.
+    destruct (negb (parse_ok c)); [intros B; injection B as <- <- <-; reflexivity|].
+    destruct (exec_effs step e (c_effs c) g l0) as [[r1 g1] l] eqn:E1.
+    pose proof (exec_effs_no_proxy_probers _ _ _ _ _ _ _ _ NP E1) as R1.
+    destruct r1; try (intros B; injection B as <- <- <-; exact R1).
+    destruct (run_startups (l_startups l) g1) as [r2 g2] eqn:E2.
+    pose proof (r_probers _ _ (proj1 (run_startups_rext _ _ _ _ E2))) as R2.
+    destruct r2; try (intros B; injection B as <- <- <-; congruence).
+    destruct (start_servers old (c_addrs c) g2 []) as [[r3 g3] srv] eqn:E3.
+    pose proof (s_probers _ _ (proj1 (start_servers_sext _ _ _ _ _ _ _ E3))) as R3.
+    destruct r3; intros B; injection B as <- <- <-; simpl; congruence. }
+  destruct r0; injection H as <- <- <-; exact RB.
+Qed.
+
+Lemma do_validate_no_proxy_probers step e c g r g' :
+  no_proxy (c_effs c) = true -> do_validate step e c g = (r, g') -> g_probers g' = g_probers g.
+Proof.
+  unfold do_validate. intros NP H.
+  destruct (negb (parse_ok c)); [injection H as <- <-; reflexivity|].
+  destruct (exec_effs step e (c_effs c) g l0) as [[r1 g1] l] eqn:E1.
+  pose proof (exec_effs_no_proxy_probers _ _ _ _ _ _ _ _ NP E1) as R1.
+  destruct r1; injection H as <- <-; exact R1.
+Qed.
+
 Lemma start_with_harmless step e c old g r g' oi :
-  socks_ok g -> no_log (c_effs c) = true ->
+  socks_ok g -> no_proxy (c_effs c) = true -> no_log (c_effs c) = true ->
   start_with step e c old g = (r, g', oi) -> r <> ROk -> same_but_cache g g'.
 Proof.
-  intros T NL H NR.
+  intros T NP NL H NR.
+  pose proof (start_with_no_proxy_probers _ _ _ _ _ _ _ _ NP H) as PB.
   pose proof (start_with_grow _ _ _ _ _ _ _ _ H) as G.
   destruct (start_with_socks _ _ _ _ _ _ _ _ T H) as (_ & _ & KO). destruct (KO NR) as [KS KN].
   pose proof (start_with_hooks _ _ _ _ _ _ _ _ H NR) as HK.
@@ -962,39 +1049,40 @@ Proof. repeat split; reflexivity. Qed.
 
 Lemma same_but_cache_trans a b c : same_but_cache a b -> same_but_cache b c -> same_but_cache a c.
 Proof.
-  intros (A1 & A2 & A3 & A4 & A5 & A6) (B1 & B2 & B3 & B4 & B5 & B6). repeat split; congruence.
+  intros (A1 & A2 & A3 & A4 & A5 & A6 & A7) (B1 & B2 & B3 & B4 & B5 & B6 & B7). repeat split; congruence.
 Qed.
 
 Theorem failed_harmless0_identity m step e c g r g' :
   wf g -> harmless0 m c = true -> attempt m step e c g = (r, g') -> r <> ROk -> same_but_cache g g'.
 Proof.
-  intros (W & T & C) HM H NR. unfold harmless0 in HM.
+  intros (W & T & C) HM H NR. unfold harmless0 in HM. apply andb_true_iff in HM as [NP HM].
   assert (VL : forall g r g', do_validate step e c g = (r, g') -> r <> ROk -> same_but_cache g g').
-  { clear. intros g r g' H NR.
+  { clear - NP. intros g r g' H NR.
+    pose proof (do_validate_no_proxy_probers _ _ _ _ _ _ NP H) as PB.
     destruct (do_validate_ext _ _ _ _ _ _ H) as (X & HK & _). destruct X.
     repeat split; auto. }
   assert (RL : forall g r g', socks_ok g -> no_log (c_effs c) = true ->
             do_reload step e c g = (r, g') -> r <> ROk -> same_but_cache g g').
-  { clear. intros g r g' T NL H NR. unfold do_reload in H.
+  { clear - NP. intros g r g' T NL H NR. unfold do_reload in H.
     destruct (g_insts g) as [|old rest] eqn:GI; [injection H as <- <-; apply same_but_cache_refl|].
     destruct (start_with step e c (i_servers old) g) as [[r1 g1] oi] eqn:S.
     assert (NR1 : r1 <> ROk).
     { intros ->. destruct (start_with_ok_some _ _ _ _ _ _ _ S) as [ni ->]. injection H as <- <-. congruence. }
-    pose proof (start_with_harmless _ _ _ _ _ _ _ _ T NL S NR1) as F.
+    pose proof (start_with_harmless _ _ _ _ _ _ _ _ T NP NL S NR1) as F.
     destruct r1; [congruence|..]; injection H as <- <-; exact F. }
   destruct m; simpl in H.
   - unfold do_load in H. destruct (start_with step e c [] g) as [[r1 g1] oi] eqn:S.
     assert (NR1 : r1 <> ROk).
     { intros ->. destruct (start_with_ok_some _ _ _ _ _ _ _ S) as [ni ->]. injection H as <- <-. congruence. }
-    pose proof (start_with_harmless step e c [] g r1 g1 oi T HM S NR1) as F.
+    pose proof (start_with_harmless step e c [] g r1 g1 oi T NP HM S NR1) as F.
     destruct r1; [congruence|..]; injection H as <- <-; exact F.
   - eapply VL; eauto.
   - eapply RL; eauto.
-  - unfold do_sigusr1 in H. destruct (g_insts g) as [|old rest] eqn:GI; [injection H as <- <-; apply same_but_cache_refl|].
+  - rewrite do_sigusr1_unfold in H. destruct (g_insts g) as [|old rest] eqn:GI; [injection H as <- <-; apply same_but_cache_refl|].
     destruct (do_reload step e c (set_hooks g [])) as [r1 g1] eqn:R.
     assert (r1 <> ROk) as NR1 by (destruct r1; injection H as <- <-; congruence).
     assert (T' : socks_ok (set_hooks g [])) by exact T.
-    destruct (RL _ _ _ T' HM R NR1) as (A1 & A2 & A3 & A4 & A5 & A6). simpl in *.
+    destruct (RL _ _ _ T' HM R NR1) as (A1 & A2 & A3 & A4 & A5 & A6 & A7). simpl in *.
     destruct r1; injection H as <- <-; try congruence; repeat split; simpl; auto.
   - eapply VL; eauto.
 Qed.
@@ -1007,7 +1095,7 @@ Lemma exec_cut step e effs : forall pre g l l2,
 Proof.
   induction effs as [|x effs IH]; intros pre g l l2 CB; simpl in CB.
   - discriminate.
-  - destruct x as [|n|f size ok|f u].
+  - destruct x as [|n|f size ok|f u|].
     + injection CB as <-. simpl. exists RErr, g, l, l2. repeat split; discriminate.
     + destruct (cut_bad effs) as [p b] eqn:C. injection CB as <- ->. simpl. apply IH. reflexivity.
     + destruct (cut_bad effs) as [p b] eqn:C. injection CB as <- ->. simpl. apply IH. reflexivity.
@@ -1018,6 +1106,7 @@ Proof.
         exists RErr, g1, l, l2. repeat split; discriminate.
       * exists RErr, g1, l, l2. repeat split; discriminate.
       * exists RHang, g1, l, l2. repeat split; discriminate.
+    + destruct (cut_bad effs) as [p b] eqn:C. injection CB as <- ->. simpl. apply IH. reflexivity.
 Qed.
 
 Lemma parse_ok_reached c : negb (parse_ok c) = true ->
@@ -1064,7 +1153,7 @@ Proof.
   - unfold do_load. rewrite start_with_reached. reflexivity.
   - apply do_validate_reached.
   - apply do_reload_reached.
-  - unfold do_sigusr1. destruct (g_insts g); [reflexivity|]. rewrite do_reload_reached. reflexivity.
+  - rewrite !do_sigusr1_unfold. destruct (g_insts g); [reflexivity|]. rewrite do_reload_reached. reflexivity.
   - apply do_validate_reached.
 Qed.
 
@@ -1100,7 +1189,7 @@ Lemma exec_effs_any_cache step e effs : forall g l r g' l',
 Proof.
   induction effs as [|x effs IH]; intros g l r g' l' CK H C CC; simpl in H |- *.
   - injection H as <- <- <-. exists C. split; [exact CC|reflexivity].
-  - destruct x as [|n|f size ok|f u].
+  - destruct x as [|n|f size ok|f u|].
     + injection H as <- <- <-. exists C. split; [exact CC|reflexivity].
     + exact (IH (set_hooks g (g_hooks g ++ repeat step n)) _ _ _ _ CK H C CC).
     + exact (IH _ _ _ _ _ CK H C CC).
@@ -1113,6 +1202,7 @@ Proof.
         -- injection H as <- <- <-. exists C1. split; [exact CC1|reflexivity].
       * injection H as <- <- <-. exists C1. split; [exact CC1|reflexivity].
       * injection H as <- <- <-. exists C1. split; [exact CC1|reflexivity].
+    + exact (IH (set_probers g (g_probers g ++ [step])) _ _ _ _ CK H C CC).
 Qed.
 
 Lemma add_roller_any_cache g f size C : add_roller (set_htcache g C) f size = set_htcache (add_roller g f size) C.
@@ -1200,7 +1290,7 @@ Proof.
     destruct r1; [destruct oi|..]; injection H as <- <-; exists C1; split; try exact CC1; reflexivity.
   - eapply do_validate_any_cache; eauto.
   - eapply do_reload_any_cache; eauto.
-  - unfold do_sigusr1 in *. simpl.
+  - rewrite do_sigusr1_unfold in *. simpl.
     destruct (g_insts g) as [|old rest]; [injection H as <- <-; exists C; split; [exact CC|reflexivity]|].
     destruct (do_reload step e c (set_hooks g [])) as [r1 g1] eqn:R.
     assert (CK' : cache_okl (g_htcache (set_hooks g []))) by exact CK.
@@ -1211,7 +1301,7 @@ Proof.
 Qed.
 
 Lemma same_but_cache_set g g2 : same_but_cache g g2 -> g2 = set_htcache g (g_htcache g2).
-Proof. intros (A1 & A2 & A3 & A4 & A5 & A6). apply gstate_eq; simpl; auto. Qed.
+Proof. intros (A1 & A2 & A3 & A4 & A5 & A6 & A7). apply gstate_eq; simpl; auto. Qed.
 
 Lemma same_but_cache_set_htcache g C : same_but_cache g (set_htcache g C).
 Proof. repeat split; reflexivity. Qed.
@@ -1224,6 +1314,76 @@ Proof.
   destruct (attempt_any_cache _ _ _ _ _ _ _ C1 H (g_htcache g2) C2) as (C' & CC' & A).
   rewrite <- (same_but_cache_set _ _ SB) in A.
   eexists. split; [exact A|]. split; [apply same_but_cache_set_htcache|exact CC'].
+Qed.
+
+(* ------------------------------------------------------------------ a contained panic *)
+Lemma panic_tail_facts step e c g g1 l :
+  exec_effs step e (c_effs c) g l0 = (ROk, g1, l) ->
+  g_htlock (set_insts g1 (g_insts g1 ++ [zombie step c])) = g_htlock g /\
+  ((forall i, In i (g_insts g) -> srv_wf (i_servers i)) -> socks_ok g -> cache_ok g ->
+     wf (set_insts g1 (g_insts g1 ++ [zombie step c]))).
+Proof.
+  intros E. pose proof (exec_effs_ext _ _ _ _ _ _ _ _ E) as X.
+  split; [exact (x_lock _ _ _ X)|].
+  intros W T C. split; [|split].
+  - simpl. intros i Hi. apply in_app_or in Hi as [Hi|[<-|[]]].
+    + rewrite (x_insts _ _ _ X) in Hi. auto.
+    + intros a sid [].
+  - intros s Hs. simpl in Hs |- *. rewrite (x_socks _ _ _ X) in Hs. rewrite (x_next _ _ _ X). apply T. exact Hs.
+  - exact (exec_effs_cache_ok _ _ _ _ _ _ _ _ C E).
+Qed.
+
+Lemma attempt_panic_lock sg step e c g r g' :
+  attempt_panic sg step e c g = (r, g') ->
+  g_htlock g' = g_htlock g /\ (g_htlock g = false -> r <> RHang).
+Proof.
+  assert (RL : forall g r g', do_reload step e c g = (r, g') ->
+               g_htlock g' = g_htlock g /\ (g_htlock g = false -> r <> RHang)).
+  { intros g2 r2 g2' H. split; [exact (attempt_lock Reload _ _ _ _ _ _ H)|].
+    intros L. exact (attempt_no_hang Reload _ _ _ _ _ _ L H). }
+  assert (SL : forall g r g', do_sigusr1 step e c g = (r, g') ->
+               g_htlock g' = g_htlock g /\ (g_htlock g = false -> r <> RHang)).
+  { intros g2 r2 g2' H. split; [exact (attempt_lock Sigusr1 _ _ _ _ _ _ H)|].
+    intros L. exact (attempt_no_hang Sigusr1 _ _ _ _ _ _ L H). }
+  destruct sg; simpl; intros H.
+  - unfold do_sigusr1_panic in H. destruct (g_insts g) as [|old rest]; [injection H as <- <-; split; [reflexivity|discriminate]|].
+    destruct (loader_fails c); [injection H as <- <-; split; [reflexivity|discriminate]|].
+    destruct (parse_ok c); [|apply SL; exact H].
+    destruct (exec_effs step e (c_effs c) (set_hooks g []) l0) as [[r1 g1] l] eqn:E1.
+    destruct r1; try (apply SL; exact H).
+    injection H as <- <-. destruct (panic_tail_facts _ _ _ _ _ _ E1) as [L _].
+    split; [exact L|discriminate].
+  - unfold do_reload_panic in H. destruct (g_insts g) as [|old rest]; [injection H as <- <-; split; [reflexivity|discriminate]|].
+    destruct (parse_ok c); [|apply RL; exact H].
+    destruct (exec_effs step e (c_effs c) g l0) as [[r1 g1] l] eqn:E1.
+    destruct r1; try (apply RL; exact H).
+    injection H as <- <-. destruct (panic_tail_facts _ _ _ _ _ _ E1) as [L _].
+    split; [exact L|discriminate].
+Qed.
+
+Lemma attempt_panic_wf sg step e c g r g' :
+  wf g -> attempt_panic sg step e c g = (r, g') -> wf g'.
+Proof.
+  intros W.
+  assert (RL : forall r g', do_reload step e c g = (r, g') -> wf g')
+    by (intros r2 g2' H; exact (attempt_wf Reload _ _ _ _ _ _ W H)).
+  assert (SL : forall r g', do_sigusr1 step e c g = (r, g') -> wf g')
+    by (intros r2 g2' H; exact (attempt_wf Sigusr1 _ _ _ _ _ _ W H)).
+  pose proof W as W0. destruct W as (W1 & T & C).
+  destruct sg; simpl; intros H.
+  - unfold do_sigusr1_panic in H. destruct (g_insts g) as [|old rest]; [injection H as <- <-; exact W0|].
+    destruct (loader_fails c); [injection H as <- <-; exact W0|].
+    destruct (parse_ok c); [|exact (SL _ _ H)].
+    destruct (exec_effs step e (c_effs c) (set_hooks g []) l0) as [[r1 g1] l] eqn:E1.
+    destruct r1; try exact (SL _ _ H).
+    injection H as <- <-. destruct (panic_tail_facts _ _ _ _ _ _ E1) as [_ WF].
+    apply WF; [exact (proj1 W0)|exact T|exact C].
+  - unfold do_reload_panic in H. destruct (g_insts g) as [|old rest]; [injection H as <- <-; exact W0|].
+    destruct (parse_ok c); [|exact (RL _ _ H)].
+    destruct (exec_effs step e (c_effs c) g l0) as [[r1 g1] l] eqn:E1.
+    destruct r1; try exact (RL _ _ H).
+    injection H as <- <-. destruct (panic_tail_facts _ _ _ _ _ _ E1) as [_ WF].
+    apply WF; [exact (proj1 W0)|exact T|exact C].
 Qed.
 
 (* ------------------------------------------------------------------ histories *)
@@ -1240,7 +1400,7 @@ Proof.
     destruct (step_op step o (e, g)) as [x [e1 g1]] eqn:S.
     destruct (run (step + 1) h (e1, g1)) as [xs [e2 g2]] eqn:R2.
     injection R as <- <- <-.
-    destruct o as [m c|f hf]; simpl in S.
+    destruct o as [m c|f hf|sg c]; simpl in S.
     + destruct (attempt m step e c g) as [r ga] eqn:A. injection S as <- <- <-.
       simpl in AF. destruct AF as [NR AF].
       pose proof (failed_harmless_identity _ _ _ _ _ _ _ W HO A NR) as SB.
@@ -1248,6 +1408,7 @@ Proof.
       destruct (IH _ _ _ _ _ _ Wa HH R2 AF) as (SB2 & W2 & E2).
       split; [eapply same_but_cache_trans; eauto|]. split; [exact W2|exact E2].
     + injection S as <- <- <-. simpl in AF. simpl. eapply IH; eauto.
+    + discriminate.
 Qed.
 
 Theorem valid_after_harmless_failures h step0 e g rs e' g' :
@@ -1285,7 +1446,7 @@ Proof.
   - destruct (step_op step o (e, g)) as [x [e1 g1]] eqn:S.
     destruct (run (step + 1) h (e1, g1)) as [xs [e2 g2]] eqn:R2.
     injection R as <- <- <-.
-    destruct o as [m c|f hf]; simpl in S.
+    destruct o as [m c|f hf|sg c]; simpl in S.
     + destruct (attempt m step e c g) as [r ga] eqn:A. injection S as <- <- <-.
       pose proof (attempt_lock _ _ _ _ _ _ _ A) as L1. rewrite L in L1.
       pose proof (attempt_no_hang _ _ _ _ _ _ _ L A) as NH.
@@ -1294,6 +1455,10 @@ Proof.
     + injection S as <- <- <-.
       destruct (IH _ _ _ _ _ _ L R2) as [L2 NI]. split; [exact L2|].
       intros [E|I]; [discriminate|auto].
+    + destruct (attempt_panic sg step e c g) as [r ga] eqn:A. injection S as <- <- <-.
+      destruct (attempt_panic_lock _ _ _ _ _ _ _ A) as [L1 NH]. rewrite L in L1.
+      destruct (IH _ _ _ _ _ _ L1 R2) as [L2 NI]. split; [exact L2|].
+      intros [E|I]; [apply NH; [exact L|congruence]|auto].
 Qed.
 
 Theorem run_wf h : forall step e g rs e' g',
@@ -1304,10 +1469,12 @@ Proof.
   - destruct (step_op step o (e, g)) as [x [e1 g1]] eqn:S.
     destruct (run (step + 1) h (e1, g1)) as [xs [e2 g2]] eqn:R2.
     injection R as <- <- <-.
-    destruct o as [m c|f hf]; simpl in S.
+    destruct o as [m c|f hf|sg c]; simpl in S.
     + destruct (attempt m step e c g) as [r ga] eqn:A. injection S as <- <- <-.
       eapply IH; [|exact R2]. eapply attempt_wf; eauto.
     + injection S as <- <- <-. eapply IH; eauto.
+    + destruct (attempt_panic sg step e c g) as [r ga] eqn:A. injection S as <- <- <-.
+      eapply IH; [|exact R2]. eapply attempt_panic_wf; eauto.
 Qed.
 
 Lemma wf_g0 : wf g0.
@@ -1353,7 +1520,7 @@ Proof.
   induction effs as [|x effs IH]; intros g l L CK V AO; simpl.
   - eauto.
   - simpl in V. apply andb_true_iff in V as [V1 V2].
-    destruct x as [|n|f size ok|f u]; simpl in V1.
+    destruct x as [|n|f size ok|f u|]; simpl in V1.
     + discriminate.
     + apply IH; auto.
     + match goal with |- context [exec_effs step e effs g ?l1] =>
@@ -1371,6 +1538,7 @@ Proof.
         destruct (IH g1 l1) as (g' & l' & E & A & B); auto end.
       { rewrite (c_lock _ _ X). exact L. }
       exists g', l'. repeat split; auto.
+    + apply IH; auto.
 Qed.
 
 Lemma run_startups_all_ok cbs : forall g, all_ok cbs -> exists g', run_startups cbs g = (ROk, g').
@@ -1536,3 +1704,435 @@ Proof.
   split; [vm_compute; reflexivity|]. split; [vm_compute; reflexivity|].
   split; [vm_compute; reflexivity|]. vm_compute. discriminate.
 Qed.
+
+(* ================================================================== round 2: loader failures, the state without
+   the two leaking registries, health-check workers, contained panics *)
+
+(* ------------------------------------------------------------------ a Casketfile that cannot be loaded *)
+Lemma set_hooks_self g : set_hooks g (g_hooks g) = g.
+Proof. destruct g; reflexivity. Qed.
+
+Lemma loader_fails_parse c : loader_fails c = true -> parse_ok c = false.
+Proof. unfold loader_fails, parse_ok. destruct (c_parse c); try discriminate; reflexivity. Qed.
+
+Lemma start_with_unparsed step e c old g :
+  parse_ok c = false -> start_with step e c old g = (RErr, g, None).
+Proof.
+  intros P. unfold start_with, start_body. rewrite P. cbn [negb]. rewrite set_hooks_self. reflexivity.
+Qed.
+
+(* the SIGUSR1 handler whose loader fails at signal time: NOTHING is changed, in any state whatsoever (the
+   load step comes before the hooks are backed up and purged, and the handler leaves right there) *)
+Theorem failed_sigusr1_load_changes_nothing step e c g :
+  loader_fails c = true -> attempt Sigusr1 step e c g = (RErr, g).
+Proof.
+  intros LF. simpl. unfold do_sigusr1, do_sigusr1_gen. rewrite LF. destruct (g_insts g); reflexivity.
+Qed.
+
+(* ... and so for every other way of attempting it *)
+Theorem unloadable_changes_nothing m step e c g :
+  loader_fails c = true -> attempt m step e c g = (RErr, g).
+Proof.
+  intros LF. pose proof (loader_fails_parse _ LF) as P.
+  destruct m; simpl.
+  - unfold do_load. rewrite (start_with_unparsed _ _ _ _ _ P). reflexivity.
+  - unfold do_validate. rewrite P. reflexivity.
+  - unfold do_reload. destruct (g_insts g); [reflexivity|]. rewrite (start_with_unparsed _ _ _ _ _ P). reflexivity.
+  - apply failed_sigusr1_load_changes_nothing. exact LF.
+  - unfold do_validate. rewrite P. reflexivity.
+Qed.
+
+(* the two orders of the handler differ in nothing but that early exit *)
+Lemma sigusr1_order_irrelevant_when_loaded step e c g :
+  loader_fails c = false -> do_sigusr1_gen true step e c g = do_sigusr1_gen false step e c g.
+Proof. intros LF. unfold do_sigusr1_gen. rewrite LF. reflexivity. Qed.
+
+(* "purge, then load": the early exit leaves the registry purged — every hook of the running configuration
+   is gone after a reload that did not even read a configuration *)
+Lemma sigusr1_purge_before_load_refuted :
+  exists h c rs e g g',
+    run 1 h ([], g0) = (rs, (e, g)) /\ loader_fails c = true /\
+    do_sigusr1_gen true 2 e c g = (RErr, g') /\ g_hooks g = [1; 1] /\ g_hooks g' = [] /\
+    do_sigusr1_gen false 2 e c g = (RErr, g).
+Proof.
+  exists [OAttempt Load (mkcfg 1 [EOn 2] [AEph 1])],
+         {| c_id := 2; c_parse := PLoader; c_effs := [EOn 1]; c_addrs := [AEph 1] |}.
+  do 4 eexists. split; [vm_compute; reflexivity|]. split; [reflexivity|].
+  split; [vm_compute; reflexivity|]. split; [reflexivity|]. split; [reflexivity|]. vm_compute. reflexivity.
+Qed.
+
+(* ------------------------------------------------------------------ health-check workers *)
+Lemma attempt_no_proxy_probers m step e c g r g' :
+  no_proxy (c_effs c) = true -> attempt m step e c g = (r, g') -> r <> ROk -> g_probers g' = g_probers g.
+Proof.
+  intros NP.
+  assert (RL : forall g r g', do_reload step e c g = (r, g') -> r <> ROk -> g_probers g' = g_probers g).
+  { clear - NP. intros g r g' H NR. unfold do_reload in H.
+    destruct (g_insts g) as [|old rest]; [injection H as <- <-; reflexivity|].
+    destruct (start_with step e c (i_servers old) g) as [[r1 g1] oi] eqn:S.
+    pose proof (start_with_no_proxy_probers _ _ _ _ _ _ _ _ NP S) as PB.
+    destruct r1; [destruct oi|..]; injection H as <- <-; try exact PB. congruence. }
+  destruct m; simpl; intros H NR.
+  - unfold do_load in H. destruct (start_with step e c [] g) as [[r1 g1] oi] eqn:S.
+    pose proof (start_with_no_proxy_probers _ _ _ _ _ _ _ _ NP S) as PB.
+    destruct r1; [destruct oi|..]; injection H as <- <-; exact PB.
+  - eapply do_validate_no_proxy_probers; eauto.
+  - eapply RL; eauto.
+  - rewrite do_sigusr1_unfold in H. destruct (g_insts g) as [|old rest]; [injection H as <- <-; reflexivity|].
+    destruct (do_reload step e c (set_hooks g [])) as [r1 g1] eqn:R.
+    assert (r1 <> ROk) as NR1 by (destruct r1; injection H as <- <-; congruence).
+    pose proof (RL _ _ _ R NR1) as PB. simpl in PB.
+    destruct r1; injection H as <- <-; try congruence; exact PB.
+  - eapply do_validate_no_proxy_probers; eauto.
+Qed.
+
+(* ------------------------------------------------------------------ the state without the leaking registries *)
+(* FULL, no side condition: whatever fails, however far it got, the instance list, the hook registry, the mutex,
+   the socket table with its descriptor counts and the name supply are exactly as before; the two registries
+   that are still written to only GROW (rollers are added, never changed; workers are added for this step,
+   never stopped), and the worker list is untouched too when no proxy directive is reached *)
+Theorem failed_attempt_frame_without_rollers m step e c g r g' :
+  wf g -> attempt m step e c g = (r, g') -> r <> ROk ->
+  same_but_leaks g g' /\
+  (forall f x, assoc f (g_rollers g) = Some x -> assoc f (g_rollers g') = Some x) /\
+  (exists k, g_probers g' = g_probers g ++ repeat step k) /\
+  (no_proxy (c_effs (reached c)) = true -> g_probers g' = g_probers g).
+Proof.
+  intros (W & T & C) H NR. destruct (failed_attempt_grow _ _ _ _ _ _ _ H NR) as [G1 G2 G3 G5 G6].
+  destruct (failed_attempt_socks _ _ _ _ _ _ _ T H NR) as [S1 S2].
+  pose proof (failed_attempt_hooks _ _ _ _ _ _ _ H NR) as HK.
+  split; [repeat split; assumption|]. split; [exact G5|]. split; [exact G6|].
+  intros NP. rewrite attempt_reached in H. eapply attempt_no_proxy_probers; eauto.
+Qed.
+
+Lemma same_but_leaks_refl g : same_but_leaks g g.
+Proof. repeat split; reflexivity. Qed.
+
+Lemma same_but_leaks_trans a b c : same_but_leaks a b -> same_but_leaks b c -> same_but_leaks a c.
+Proof.
+  intros (A1 & A2 & A3 & A4 & A5) (B1 & B2 & B3 & B4 & B5). repeat split; congruence.
+Qed.
+
+(* --- an attempt does not read the roller map (except to extend it) nor the worker list (except to extend it
+       and to take out the workers of the instance it stops) --- *)
+Definition set_rp (g : gstate) (R : list (N * N)) (P : list N) : gstate := set_probers (set_rollers g R) P.
+
+Lemma get_matcher_any_rp e g f u r g' o :
+  get_matcher e g f u = (r, g', o) -> forall R P, get_matcher e (set_rp g R P) f u = (r, set_rp g' R P, o).
+Proof.
+  unfold get_matcher, get_matcher_gen. intros H R P. cbn [set_rp set_probers set_rollers g_htlock g_htcache].
+  destruct (g_htlock g); [injection H as <- <- <-; reflexivity|].
+  destruct (negb (h_present (env_get e f))); [injection H as <- <- <-; reflexivity|].
+  destruct (assoc f (g_htcache g)) as [h'|].
+  - destruct (htfile_eqb h' (env_get e f)).
+    + destruct (assoc u (h_users h')); injection H as <- <- <-; reflexivity.
+    + destruct (h_bad (env_get e f)); [injection H as <- <- <-; reflexivity|].
+      destruct (assoc u (h_users (env_get e f))); injection H as <- <- <-; reflexivity.
+  - destruct (h_bad (env_get e f)); [injection H as <- <- <-; reflexivity|].
+    destruct (assoc u (h_users (env_get e f))); injection H as <- <- <-; reflexivity.
+Qed.
+
+Lemma exec_effs_any_rp step e effs : forall g l r g' l',
+  exec_effs step e effs g l = (r, g', l') ->
+  forall R P, exists P', exec_effs step e effs (set_rp g R P) l = (r, set_rp g' R P', l').
+Proof.
+  induction effs as [|x effs IH]; intros g l r g' l' H R P; simpl in H |- *.
+  - injection H as <- <- <-. exists P. reflexivity.
+  - destruct x as [|n|f size ok|f u|].
+    + injection H as <- <- <-. exists P. reflexivity.
+    + exact (IH (set_hooks g (g_hooks g ++ repeat step n)) _ _ _ _ H R P).
+    + exact (IH _ _ _ _ _ H R P).
+    + destruct (get_matcher e g f u) as [[r1 g1] o1] eqn:M.
+      rewrite (get_matcher_any_rp _ _ _ _ _ _ _ M R P).
+      destruct r1.
+      * destruct o1 as [pw|].
+        -- exact (IH _ _ _ _ _ H R P).
+        -- injection H as <- <- <-. exists P. reflexivity.
+      * injection H as <- <- <-. exists P. reflexivity.
+      * injection H as <- <- <-. exists P. reflexivity.
+    + exact (IH (set_probers g (g_probers g ++ [step])) _ _ _ _ H R (P ++ [step])).
+Qed.
+
+Lemma run_startups_any_rp cbs : forall g r g' R P,
+  run_startups cbs g = (r, g') -> exists R', run_startups cbs (set_rp g R P) = (r, set_rp g' R' P).
+Proof.
+  induction cbs as [|[[f size] ok] cbs IH]; intros g r g' R P H; simpl in H |- *.
+  - injection H as <- <-. exists R. reflexivity.
+  - destruct ok.
+    + unfold add_roller in *. cbn [set_rp set_probers set_rollers g_rollers].
+      destruct (assoc f (g_rollers g)); destruct (assoc f R).
+      * exact (IH _ _ _ R P H).
+      * exact (IH _ _ _ ((f, size) :: R) P H).
+      * exact (IH _ _ _ R P H).
+      * exact (IH _ _ _ ((f, size) :: R) P H).
+    + injection H as <- <-. exists R. reflexivity.
+Qed.
+
+Lemma start_servers_any_rp old addrs : forall g acc r g' srv R P,
+  start_servers old addrs g acc = (r, g', srv) ->
+  start_servers old addrs (set_rp g R P) acc = (r, set_rp g' R P, srv).
+Proof.
+  induction addrs as [|a addrs IH]; intros g acc r g' srv R P H; simpl in H |- *.
+  - injection H as <- <- <-. reflexivity.
+  - destruct (inherited a old) as [sid|].
+    + exact (IH _ _ _ _ _ R P H).
+    + destruct a as [n|].
+      * exact (IH _ _ _ _ _ R P H).
+      * injection H as <- <- <-. reflexivity.
+Qed.
+
+Lemma start_with_any_rp step e c old g r g' oi :
+  start_with step e c old g = (r, g', oi) ->
+  forall R P, exists R' P', start_with step e c old (set_rp g R P) = (r, set_rp g' R' P', oi).
+Proof.
+  unfold start_with. intros H R P.
+  destruct (start_body step e c old g) as [[r0 gb] oi0] eqn:B.
+  assert (BB : exists R' P', start_body step e c old (set_rp g R P) = (r0, set_rp gb R' P', oi0)).
+  { revert B. unfold start_body.
+    destruct (negb (parse_ok c)); [intros B; injection B as <- <- <-; exists R, P; reflexivity|].
+    destruct (exec_effs step e (c_effs c) g l0) as [[r1 g1] l] eqn:E1.
+    destruct (exec_effs_any_rp _ _ _ _ _ _ _ _ E1 R P) as (P1 & E2). rewrite E2.
+    destruct r1; try (intros B; injection B as <- <- <-; exists R, P1; reflexivity).
+    destruct (run_startups (l_startups l) g1) as [r2 g2] eqn:S1.
+    destruct (run_startups_any_rp _ _ _ _ R P1 S1) as (R1 & S1'). rewrite S1'.
+    destruct r2; try (intros B; injection B as <- <- <-; exists R1, P1; reflexivity).
+    destruct (start_servers old (c_addrs c) g2 []) as [[r3 g3] srv] eqn:S2.
+    rewrite (start_servers_any_rp _ _ _ _ _ _ _ R1 P1 S2).
+    destruct r3; intros B; injection B as <- <- <-; exists R1, P1; reflexivity. }
+  destruct BB as (R1 & P1 & B2). rewrite B2.
+  destruct r0; injection H as <- <- <-; exists R1, P1; reflexivity.
+Qed.
+
+Lemma do_validate_any_rp step e c g r g' :
+  do_validate step e c g = (r, g') ->
+  forall R P, exists R' P', do_validate step e c (set_rp g R P) = (r, set_rp g' R' P').
+Proof.
+  unfold do_validate. intros H R P.
+  destruct (negb (parse_ok c)); [injection H as <- <-; exists R, P; reflexivity|].
+  destruct (exec_effs step e (c_effs c) g l0) as [[r1 g1] l] eqn:E1.
+  destruct (exec_effs_any_rp _ _ _ _ _ _ _ _ E1 R P) as (P1 & E2). rewrite E2.
+  destruct r1; injection H as <- <-; exists R, P1; reflexivity.
+Qed.
+
+Lemma do_reload_any_rp step e c g r g' :
+  do_reload step e c g = (r, g') ->
+  forall R P, exists R' P', do_reload step e c (set_rp g R P) = (r, set_rp g' R' P').
+Proof.
+  unfold do_reload. intros H R P. cbn [set_rp set_probers set_rollers g_insts].
+  destruct (g_insts g) as [|old rest]; [injection H as <- <-; exists R, P; reflexivity|].
+  destruct (start_with step e c (i_servers old) g) as [[r1 g1] oi] eqn:S.
+  destruct (start_with_any_rp _ _ _ _ _ _ _ _ S R P) as (R1 & P1 & S2).
+  rewrite S2.
+  destruct r1; [destruct oi|..]; injection H as <- <-.
+  - exists R1, (stop_probers (i_probe old) P1). reflexivity.
+  - exists R1, P1. reflexivity.
+  - exists R1, P1. reflexivity.
+  - exists R1, P1. reflexivity.
+Qed.
+
+Theorem attempt_any_rp m step e c g r g' :
+  attempt m step e c g = (r, g') ->
+  forall R P, exists R' P', attempt m step e c (set_rp g R P) = (r, set_rp g' R' P').
+Proof.
+  destruct m; simpl; intros H R P.
+  - unfold do_load in *.
+    destruct (start_with step e c [] g) as [[r1 g1] oi] eqn:S.
+    destruct (start_with_any_rp _ _ _ _ _ _ _ _ S R P) as (R1 & P1 & S2). rewrite S2.
+    destruct r1; [destruct oi|..]; injection H as <- <-; exists R1, P1; reflexivity.
+  - eapply do_validate_any_rp; eauto.
+  - eapply do_reload_any_rp; eauto.
+  - rewrite do_sigusr1_unfold in *. cbn [set_rp set_probers set_rollers g_insts g_hooks].
+    destruct (g_insts g) as [|old rest]; [injection H as <- <-; exists R, P; reflexivity|].
+    destruct (do_reload step e c (set_hooks g [])) as [r1 g1] eqn:R0.
+    destruct (do_reload_any_rp _ _ _ _ _ _ R0 R P) as (R1 & P1 & R2).
+    change (set_hooks (set_rp g R P) []) with (set_rp (set_hooks g []) R P). rewrite R2.
+    destruct r1; injection H as <- <-; exists R1, P1; reflexivity.
+  - eapply do_validate_any_rp; eauto.
+Qed.
+
+Lemma same_but_leaks_set g g2 :
+  same_but_leaks g g2 -> g2 = set_rp (set_htcache g (g_htcache g2)) (g_rollers g2) (g_probers g2).
+Proof. intros (A1 & A2 & A3 & A4 & A5). apply gstate_eq; simpl; auto. Qed.
+
+Lemma same_but_leaks_sets g C R P : same_but_leaks g (set_rp (set_htcache g C) R P).
+Proof. repeat split; reflexivity. Qed.
+
+(* whatever an attempt does from a state, it does from any state that differs in the cache of parsed files,
+   the roller map and the worker list only: same outcome, same resulting state up to these three *)
+Theorem attempt_ignores_leaks m step e c g1 g2 r g1' :
+  cache_ok g1 -> cache_ok g2 -> same_but_leaks g1 g2 -> attempt m step e c g1 = (r, g1') ->
+  exists g2', attempt m step e c g2 = (r, g2') /\ same_but_leaks g1' g2' /\ cache_ok g2'.
+Proof.
+  intros C1 C2 SB H.
+  destruct (attempt_any_cache _ _ _ _ _ _ _ C1 H (g_htcache g2) C2) as (C' & CC' & A).
+  destruct (attempt_any_rp _ _ _ _ _ _ _ A (g_rollers g2) (g_probers g2)) as (R' & P' & A2).
+  rewrite <- (same_but_leaks_set _ _ SB) in A2.
+  eexists. split; [exact A2|]. split; [apply same_but_leaks_sets|exact CC'].
+Qed.
+
+Lemma failed_attempt_same_but_leaks m step e c g r g' :
+  wf g -> attempt m step e c g = (r, g') -> r <> ROk -> same_but_leaks g g'.
+Proof. intros W H NR. exact (proj1 (failed_attempt_frame_without_rollers _ _ _ _ _ _ _ W H NR)). Qed.
+
+(* over ALL histories of attempts that return (no contained panic) and fail, and of file rewrites, without
+   any side condition on the configurations: the state is the state before up to the cache, the roller map and
+   the worker list, so every later attempt has the outcome it has without the failures, and the same effect
+   on everything but these three *)
+Theorem run_failures_same_but_leaks h : forall step e g rs e' g',
+  wf g -> forallb returns_op h = true -> run step h (e, g) = (rs, (e', g')) ->
+  attempts_failed h rs -> same_but_leaks g g' /\ wf g' /\ e' = writes h e.
+Proof.
+  induction h as [|o h IH]; intros step e g rs e' g' W HH R AF; simpl in R.
+  - injection R as <- <- <-. split; [apply same_but_leaks_refl|]. split; [exact W|reflexivity].
+  - simpl in HH. apply andb_true_iff in HH as [HO HH].
+    destruct (step_op step o (e, g)) as [x [e1 g1]] eqn:S.
+    destruct (run (step + 1) h (e1, g1)) as [xs [e2 g2]] eqn:R2.
+    injection R as <- <- <-.
+    destruct o as [m c|f hf|sg c]; simpl in S.
+    + destruct (attempt m step e c g) as [r ga] eqn:A. injection S as <- <- <-.
+      simpl in AF. destruct AF as [NR AF].
+      pose proof (failed_attempt_same_but_leaks _ _ _ _ _ _ _ W A NR) as SB.
+      pose proof (attempt_wf _ _ _ _ _ _ _ W A) as Wa.
+      destruct (IH _ _ _ _ _ _ Wa HH R2 AF) as (SB2 & W2 & E2).
+      split; [eapply same_but_leaks_trans; eauto|]. split; [exact W2|exact E2].
+    + injection S as <- <- <-. simpl in AF. simpl. eapply IH; eauto.
+    + discriminate.
+Qed.
+
+Theorem valid_after_failures_without_rollers h step0 e g rs e' g' :
+  wf g -> forallb returns_op h = true ->
+  run step0 h (e, g) = (rs, (e', g')) -> attempts_failed h rs ->
+  same_but_leaks g g' /\ e' = writes h e /\
+  forall m step v r ga, attempt m step (writes h e) v g = (r, ga) ->
+  exists gb, attempt m step e' v g' = (r, gb) /\ same_but_leaks ga gb.
+Proof.
+  intros W HH R AF.
+  destruct (run_failures_same_but_leaks h step0 e g rs e' g' W HH R AF) as (SB & W' & ->).
+  split; [exact SB|]. split; [reflexivity|].
+  intros m step v r ga A.
+  destruct W as (_ & _ & C). destruct W' as (_ & _ & C').
+  destruct (attempt_ignores_leaks m step (writes h e) v g g' r ga C C' SB A) as (gb & A' & SB' & _).
+  exists gb. split; assumption.
+Qed.
+
+(* ------------------------------------------------------------------ health-check workers outlive a failed attempt *)
+Lemma health_checkers_refuted :
+  (exists g', attempt Load 1 [] (mkcfg 1 [EProxy] [ABusy]) g0 = (RErr, g') /\ g_probers g' = [1]) /\
+  (exists g', attempt Validate 1 [] (mkcfg 1 [EProxy; EBad] [AEph 1]) g0 = (RErr, g') /\ g_probers g' = [1]) /\
+  (exists g1 g2, attempt Load 1 [] (mkcfg 1 [EProxy] [AEph 1]) g0 = (ROk, g1) /\ g_probers g1 = [1] /\
+                 attempt Reload 2 [] (mkcfg 2 [EProxy; EBad] [AEph 1]) g1 = (RErr, g2) /\ g_probers g2 = [1; 2]) /\
+  (exists g1 g2, attempt Load 1 [] (mkcfg 1 [EProxy] [AEph 1]) g0 = (ROk, g1) /\
+                 attempt Sigusr1 2 [] (mkcfg 2 [EProxy] [AEph 1; ABusy]) g1 = (RErr, g2) /\ g_probers g2 = [1; 2]) /\
+  (* whereas a reload that succeeds stops the workers of the instance it replaces *)
+  (exists g1 g2, attempt Load 1 [] (mkcfg 1 [EProxy] [AEph 1]) g0 = (ROk, g1) /\
+                 attempt Reload 2 [] (mkcfg 2 [EProxy] [AEph 1]) g1 = (ROk, g2) /\ g_probers g2 = [2]).
+Proof.
+  repeat split; try (eexists; vm_compute; split; reflexivity);
+    eexists; eexists; vm_compute; repeat split; reflexivity.
+Qed.
+
+(* ------------------------------------------------------------------ a panic contained by Restart *)
+Lemma do_reload_exec_fails step e c g old rest r1 g1 l :
+  g_insts g = old :: rest -> parse_ok c = true -> exec_effs step e (c_effs c) g l0 = (r1, g1, l) -> r1 <> ROk ->
+  fst (do_reload step e c g) <> ROk.
+Proof.
+  intros GI P E NR. unfold do_reload, start_with, start_body. rewrite GI, P, E. cbn [negb].
+  destruct r1; [congruence|simpl; discriminate|simpl; discriminate].
+Qed.
+
+Lemma do_reload_unparsed_fails step e c g : parse_ok c = false -> fst (do_reload step e c g) <> ROk.
+Proof.
+  intros P. unfold do_reload. destruct (g_insts g); [simpl; discriminate|].
+  rewrite (start_with_unparsed _ _ _ _ _ P). simpl. discriminate.
+Qed.
+
+Lemma do_sigusr1_of_failed_reload step e c g :
+  fst (do_reload step e c (set_hooks g [])) <> ROk -> fst (do_sigusr1 step e c g) <> ROk.
+Proof.
+  intros NR. rewrite do_sigusr1_unfold. destruct (g_insts g); [simpl; discriminate|].
+  destruct (do_reload step e c (set_hooks g [])) as [r1 g1]. simpl in NR.
+  destruct r1; [congruence|simpl; discriminate|simpl; discriminate].
+Qed.
+
+(* it never reports success ... *)
+Lemma attempt_panic_fails sg step e c g r g' : attempt_panic sg step e c g = (r, g') -> r <> ROk.
+Proof.
+  destruct sg; simpl; intros H.
+  - unfold do_sigusr1_panic in H. destruct (g_insts g) as [|old rest] eqn:GI; [injection H as <- <-; discriminate|].
+    destruct (loader_fails c); [injection H as <- <-; discriminate|].
+    destruct (parse_ok c) eqn:P.
+    + destruct (exec_effs step e (c_effs c) (set_hooks g []) l0) as [[r1 g1] l] eqn:E1.
+      assert (NS : r1 <> ROk -> fst (do_sigusr1 step e c g) <> ROk).
+      { intros NR. apply do_sigusr1_of_failed_reload.
+        eapply do_reload_exec_fails; [exact GI|exact P|exact E1|exact NR]. }
+      destruct r1; [injection H as <- <-; discriminate|..]; rewrite H in NS; apply NS; discriminate.
+    + pose proof (do_sigusr1_of_failed_reload step e c g (do_reload_unparsed_fails _ _ _ _ P)) as NS.
+      rewrite H in NS. exact NS.
+  - unfold do_reload_panic in H. destruct (g_insts g) as [|old rest] eqn:GI; [injection H as <- <-; discriminate|].
+    destruct (parse_ok c) eqn:P.
+    + destruct (exec_effs step e (c_effs c) g l0) as [[r1 g1] l] eqn:E1.
+      assert (NS : r1 <> ROk -> fst (do_reload step e c g) <> ROk).
+      { intros NR. eapply do_reload_exec_fails; [exact GI|exact P|exact E1|exact NR]. }
+      destruct r1; [injection H as <- <-; discriminate|..]; rewrite H in NS; apply NS; discriminate.
+    + pose proof (do_reload_unparsed_fails step e c g P) as NS. rewrite H in NS. exact NS.
+Qed.
+
+(* ... and this is what it still leaves alone: the socket table with its descriptors, the mutex, every roller,
+   every instance that was running (still in the list, its listeners open); at most ONE half-made instance
+   without servers is appended *)
+Theorem contained_panic_partial sg step e c g r g' :
+  wf g -> attempt_panic sg step e c g = (r, g') ->
+  r <> ROk /\ g_socks g' = g_socks g /\ g_next g' = g_next g /\ g_htlock g' = g_htlock g /\
+  (forall f x, assoc f (g_rollers g) = Some x -> assoc f (g_rollers g') = Some x) /\
+  (g_insts g' = g_insts g \/ exists z, g_insts g' = g_insts g ++ [z] /\ i_servers z = []) /\
+  (forall i, In i (g_insts g) -> alive g i -> alive g' i).
+Proof.
+  intros W H. pose proof (attempt_panic_fails _ _ _ _ _ _ _ H) as NR. split; [exact NR|].
+  assert (FALL : forall m, attempt m step e c g = (r, g') ->
+            g_socks g' = g_socks g /\ g_next g' = g_next g /\ g_htlock g' = g_htlock g /\
+            (forall f x, assoc f (g_rollers g) = Some x -> assoc f (g_rollers g') = Some x) /\
+            (g_insts g' = g_insts g \/ exists z, g_insts g' = g_insts g ++ [z] /\ i_servers z = []) /\
+            (forall i, In i (g_insts g) -> alive g i -> alive g' i)).
+  { intros m A. destruct (failed_attempt_loses_nothing _ _ _ _ _ _ _ W A NR) as (F1 & F2 & F3 & F4 & F5).
+    destruct W as (W1 & T & C). destruct (failed_attempt_socks _ _ _ _ _ _ _ T A NR) as [_ S2].
+    split; [exact F5|]. split; [exact S2|]. split; [exact F2|]. split; [exact F4|]. split; [left; exact F1|].
+    intros i Hi AL a sid Hin. unfold alive in AL. rewrite F5. exact (AL a sid Hin). }
+  assert (PANIC : forall ga g1 l, g_socks ga = g_socks g -> g_next ga = g_next g -> g_htlock ga = g_htlock g ->
+            g_rollers ga = g_rollers g -> g_insts ga = g_insts g ->
+            exec_effs step e (c_effs c) ga l0 = (ROk, g1, l) -> g' = set_insts g1 (g_insts g1 ++ [zombie step c]) ->
+            g_socks g' = g_socks g /\ g_next g' = g_next g /\ g_htlock g' = g_htlock g /\
+            (forall f x, assoc f (g_rollers g) = Some x -> assoc f (g_rollers g') = Some x) /\
+            (g_insts g' = g_insts g \/ exists z, g_insts g' = g_insts g ++ [z] /\ i_servers z = []) /\
+            (forall i, In i (g_insts g) -> alive g i -> alive g' i)).
+  { intros ga g1 l A1 A2 A3 A4 A5 E ->. destruct (exec_effs_ext _ _ _ _ _ _ _ _ E) as [X1 X2 X3 X4 X5 _ _].
+    cbn [set_insts g_socks g_next g_htlock g_rollers g_insts].
+    split; [congruence|]. split; [congruence|]. split; [congruence|]. split; [|split].
+    - intros f x Hx. rewrite X4, A4. exact Hx.
+    - right. exists (zombie step c). split; [congruence|reflexivity].
+    - intros i Hi AL a sid Hin. unfold alive in *. cbn [set_insts g_socks]. rewrite X2, A1. exact (AL a sid Hin). }
+  destruct sg; simpl in H.
+  - unfold do_sigusr1_panic in H. destruct (g_insts g) as [|old rest] eqn:GI.
+    { injection H as <- <-. auto 10. }
+    destruct (loader_fails c). { injection H as <- <-. rewrite GI. auto 10. }
+    destruct (parse_ok c); [|exact (FALL Sigusr1 H)].
+    destruct (exec_effs step e (c_effs c) (set_hooks g []) l0) as [[r1 g1] l] eqn:E1.
+    destruct r1; try (exact (FALL Sigusr1 H)).
+    injection H as <- <-. eapply PANIC; try exact E1; try reflexivity; exact GI.
+  - unfold do_reload_panic in H. destruct (g_insts g) as [|old rest] eqn:GI.
+    { injection H as <- <-. auto 10. }
+    destruct (parse_ok c); [|exact (FALL Reload H)].
+    destruct (exec_effs step e (c_effs c) g l0) as [[r1 g1] l] eqn:E1.
+    destruct r1; try (exact (FALL Reload H)).
+    injection H as <- <-. eapply PANIC; try exact E1; try reflexivity; exact GI.
+Qed.
+
+(* what it does NOT leave alone: the instance list and the hook registry (API-driven: the hooks of the
+   rejected configuration stay; SIGUSR1: the hooks of the running configuration are gone as well) *)
+Lemma contained_panic_refuted :
+  exists g1 g2 g3,
+    attempt Load 1 [] (mkcfg 1 [EOn 1] [AEph 1]) g0 = (ROk, g1) /\ g_hooks g1 = [1] /\ length (g_insts g1) = 1%nat /\
+    attempt_panic false 2 [] (mkcfg 2 [EOn 1] [AEph 1]) g1 = (RErr, g2) /\
+    g_hooks g2 = [1; 2] /\ length (g_insts g2) = 2%nat /\
+    attempt_panic true 3 [] (mkcfg 3 [EOn 1] [AEph 1]) g1 = (RErr, g3) /\
+    g_hooks g3 = [3] /\ length (g_insts g3) = 2%nat.
+Proof. do 3 eexists. vm_compute. repeat split; reflexivity. Qed.
